@@ -387,6 +387,32 @@ def oracle_case(case: dict, tmp: Path, tag: str, final_path=None):
         for label, o in (("never-saved document", o_ref), ("saved file", o_fin)):
             if name in o and o[name] != h:
                 fails.append(("set-size-not-reported", f"{name} set to {h} (no borders on the line) reads {o[name]!r} in the {label}"))
+    # a label set through the API (and accepted) is what is reported, before and after
+    exp = {}
+    cap_set, hidden = False, None
+    for ev in erase(H):
+        k = ev[0]
+        if k in ("hr", "hc"):
+            lim = t_ref.num_rows if k == "hr" else t_ref.num_cols
+            if 0 <= ev[1] <= min(lim, 5):
+                exp[f"s{tbl[0]}t{tbl[1]}." + ("num_header_rows" if k == "hr" else "num_header_cols")] = ev[1]
+        elif k == "tname":
+            exp[f"s{tbl[0]}t{tbl[1]}.name"] = ev[1]
+        elif k == "sname":
+            exp[f"sheet{tbl[0]}.name"] = ev[1]
+        elif k == "cap":
+            exp[f"s{tbl[0]}t{tbl[1]}.caption"] = ev[1]
+            cap_set = True
+        elif k == "cap_en":
+            hidden = not ev[1]
+        elif k == "name_en":
+            exp[f"s{tbl[0]}t{tbl[1]}.table_name_enabled"] = bool(ev[1])
+    if cap_set and hidden is not None:
+        exp[f"s{tbl[0]}t{tbl[1]}.caption_enabled"] = not hidden
+    for key, want in exp.items():
+        for label, o in (("never-saved document", o_ref), ("saved file", o_fin)):
+            if key in o and o[key] != want:
+                fails.append(("set-label-not-reported", f"{key} set to {want!r} reads {o[key]!r} in the {label}"))
     # persisted sizes: never touched by a save unless set through the API
     try:
         r0, c0, _, _ = raw_sizes(open_source(src), tbl)
@@ -607,7 +633,7 @@ def run(ctx: Ctx) -> int:
         one_case(ctx, exe, case, f"corpus{i}")
 
     # ---- B. API-built documents
-    n = 90 if ctx.quick else 900
+    n = 90 if ctx.quick else 600
     for i in range(n):
         src, tbl, nr, nc = gen_source(rng)
         H, mode = gen_history(rng, nr, nc)
